@@ -86,6 +86,12 @@ pub fn run(
     let mut iter_counter = 0u64;
 
     loop {
+        // Verification hook: fault injection point
+        #[cfg(aquatic_verif)]
+        if aquatic_common::verif::fault("udp_socket", 0) {
+            return Ok(());
+        }
+
         poll.poll(&mut events, Some(poll_timeout)).context("poll")?;
 
         for event in events.iter() {
